@@ -138,23 +138,55 @@ fn sinclair_table_and_send() {
     kani::cover!(true);
 }
 
-/// invariant tying the compound-key matrix to the held-set bitmask
-fn ext_inv(ke: &[u8; 8], held: u32) -> bool {
+fn compound_of(k: usize) -> CompoundKey {
+    match k {
+        0 => CompoundKey::ArrowLeft,
+        1 => CompoundKey::ArrowRight,
+        2 => CompoundKey::ArrowUp,
+        3 => CompoundKey::ArrowDown,
+        4 => CompoundKey::CapsLock,
+        5 => CompoundKey::Delete,
+        _ => CompoundKey::Break,
+    }
+}
+
+/// expected compound-key matrix for a set of held compound keys: their primary keys, plus
+/// CAPS SHIFT while any of them is held
+fn expected_matrix(held: &[bool; 7]) -> [u8; 8] {
     let mut exp = [0xFFu8; 8];
+    let mut any = false;
     let mut k = 0;
     while k < 7 {
-        if held & (1 << k) != 0 {
+        if held[k] {
             let (r, m) = compound_primary(k);
             exp[r] &= !m;
+            any = true;
         }
         k += 1;
     }
-    if held & 0x7F != 0 {
-        exp[0] &= !0x01; // CAPS SHIFT held while any compound key is held
+    if any {
+        exp[0] &= !0x01;
     }
-    *ke == exp && held & !0x7F == 0
+    exp
 }
 
+/// the controller's bookkeeping of held compound keys, in terms of the code's own bit assignment
+fn mask_of(held: &[bool; 7]) -> u32 {
+    let mut m = 0;
+    let mut k = 0;
+    while k < 7 {
+        if held[k] {
+            m |= compound_of(k).modifier_mask();
+        }
+        k += 1;
+    }
+    m
+}
+
+/// Representation invariant: (matrix, bookkeeping mask) correspond to a set of held compound keys.
+/// From every such state every press/release leads to the state of the updated set, so after any
+/// event history the matrix shows exactly the held compound keys and CAPS SHIFT is released only
+/// with the last one.
 #[kani::proof]
 #[kani::unwind(17)]
 #[kani::stub(libm::sqrt, sqrt_stub)]
@@ -162,25 +194,23 @@ fn compound_keys() {
     let mut c = new_ctl();
     let kb: [u8; 8] = kani::any();
     let ks: [u8; 8] = kani::any();
-    let ke: [u8; 8] = kani::any();
-    let held: u32 = kani::any();
-    kani::assume(ext_inv(&ke, held));
+    let held: [bool; 7] = kani::any();
     c.keyboard = kb;
     c.keyboard_sinclair = ks;
-    c.keyboard_extended = ke;
-    c.caps_shift_modifier_mask = held;
+    c.keyboard_extended = expected_matrix(&held);
+    c.caps_shift_modifier_mask = mask_of(&held);
     let (key, k) = any_compound();
     let pressed: bool = kani::any();
     c.send_compound_key(key, pressed);
-    let held2 = if pressed { held | (1 << k) } else { held & !(1 << k) };
-    kani::assert(c.caps_shift_modifier_mask == held2, "C17: compound held-set updated");
-    // two compound keys may share a primary key position? (no: primary keys are distinct)
-    kani::assert(ext_inv(&c.keyboard_extended, held2),
+    let mut held2 = held;
+    held2[k] = pressed;
+    kani::assert(c.keyboard_extended == expected_matrix(&held2),
         "C17: compound matrix == keys of all held compound keys + CAPS SHIFT while any is held");
+    kani::assert(c.caps_shift_modifier_mask == mask_of(&held2), "C17: compound held-set bookkeeping consistent");
     kani::assert(c.keyboard == kb && c.keyboard_sinclair == ks,
         "C17: a compound event never touches the other sources");
     kani::cover!(pressed);
-    kani::cover!(!pressed && held2 != 0);
+    kani::cover!(!pressed && held2 != [false; 7]);
 }
 
 #[kani::proof]
